@@ -1,7 +1,8 @@
 //! Rule-manager cases (C10, C11 identity part, C12 manager part).
 //! case: tag family npool { id res key }*  nres  ops...      family: 0 flow, 1 hotspot, 2 breaker, 3 isolation
 //!       a rule with key k is valid iff k % 5 != 0 and has statistic class k % 2
-//! ops : L n ix* | R res n ix* | P ix | C | K res | G | Q res | E res
+//! ops : L n ix* | R res n ix* | P ix | C | K res | G | Q res | E res | T res
+//!       T res: identity of the controllers / breakers of the resource: (rule id, object token, statistic token)*
 //! out : per op a length-prefixed list: return code (1 true, 0 false, 2 Err, 9 unit, -1 panic) or rule ids
 use crate::util::*;
 use crate::world::num_id;
@@ -88,6 +89,11 @@ pub fn run_case(t: &mut Toks) -> Vec<i128> {
         let n = t.usize();
         (0..n).map(|_| pool[t.usize()].clone()).collect()
     };
+    let mut tokens: std::collections::HashMap<usize, i128> = std::collections::HashMap::new();
+    let mut tok = |p: usize| -> i128 {
+        let n = tokens.len() as i128 + 1;
+        *tokens.entry(p).or_insert(n)
+    };
     let mut emit = |out: &mut Vec<i128>, v: Vec<i128>| {
         out.push(v.len() as i128);
         out.extend(v);
@@ -170,6 +176,33 @@ pub fn run_case(t: &mut Toks) -> Vec<i128> {
                     1 => hotspot::get_traffic_controller_list_for(&nm).iter().map(|c| num_id(&c.rule().id)).collect(),
                     2 => cb::get_breakers_of_resource(&nm).iter().map(|b| num_id(&b.bound_rule().id)).collect(),
                     _ => isolation::get_rules_of_resource(&nm).iter().map(|r| num_id(&r.id)).collect(),
+                })
+            }
+            "T" => {
+                let nm = name(&tag, t.u64());
+                let ptrs: Option<Vec<(i128, usize, usize)>> = guarded(|| match fam {
+                    0 => flow::get_traffic_controller_list_for(&nm)
+                        .iter()
+                        .map(|c| (num_id(&c.rule().id), Arc::as_ptr(c) as usize, Arc::as_ptr(c.stat()) as usize))
+                        .collect(),
+                    1 => hotspot::get_traffic_controller_list_for(&nm)
+                        .iter()
+                        .map(|c| (num_id(&c.rule().id), Arc::as_ptr(c) as usize, Arc::as_ptr(c.metric()) as usize))
+                        .collect(),
+                    2 => cb::get_breakers_of_resource(&nm)
+                        .iter()
+                        .map(|b| {
+                            (num_id(&b.bound_rule().id), Arc::as_ptr(b) as *const u8 as usize, Arc::as_ptr(b.stat()) as usize)
+                        })
+                        .collect(),
+                    _ => Vec::new(),
+                });
+                ptrs.map(|v| {
+                    let mut o = Vec::new();
+                    for (id, a, b) in v {
+                        o.extend([id, tok(a), tok(b)]);
+                    }
+                    o
                 })
             }
             x => panic!("bad op {}", x),
